@@ -189,10 +189,13 @@ package server
 //@   requires [parser] esp != nil
 //@   requires [decoder] decoder != nil
 //@   requires [store] esp.store != nil
+//@   requires [callers-hold-no-lock-at-or-above-the-namespace-lock] forall l int :: has($held, l) ==> lockLevel(l) < 5
+//@   requires [namespace-registry] esp.store.NamespaceManager != nil && !has($held, addrOf(esp.store.NamespaceManager.lock))
+//@   ensures [lock-released] $held == old($held)
 //@   requires [mappings] esp.localPropertyMappings != nil
 //@   ensures [no-props-on-error] ret1 != nil ==> ret0 == nil
 //@   ensures [props-on-success] ret1 == nil ==> ret0 != nil
-//@   modifies $held, $acq, $persisted, $storeAttempted, map[string]string, map[string]interface{}, Entity.*, []interface{}
+//@   modifies $held, $acq, $persisted, $storeAttempted, map[string]string, F.server.NamespacesState.*, map[string]interface{}, Entity.*, []interface{}
 //@   safe typeassert nilmap
 
 //@ unit (*EntityStreamParser).parseReferences
@@ -200,10 +203,13 @@ package server
 //@   requires [parser] esp != nil
 //@   requires [decoder] decoder != nil
 //@   requires [store] esp.store != nil
+//@   requires [callers-hold-no-lock-at-or-above-the-namespace-lock] forall l int :: has($held, l) ==> lockLevel(l) < 5
+//@   requires [namespace-registry] esp.store.NamespaceManager != nil && !has($held, addrOf(esp.store.NamespaceManager.lock))
+//@   ensures [lock-released] $held == old($held)
 //@   requires [mappings] esp.localPropertyMappings != nil
 //@   ensures [no-refs-on-error] ret1 != nil ==> ret0 == nil
 //@   ensures [refs-on-success] ret1 == nil ==> ret0 != nil
-//@   modifies $held, $acq, $persisted, $storeAttempted, map[string]string, map[string]interface{}, []interface{}, []string
+//@   modifies $held, $acq, $persisted, $storeAttempted, map[string]string, F.server.NamespacesState.*, map[string]interface{}, []interface{}, []string
 //@   safe typeassert nilmap
 
 //@ unit (*EntityStreamParser).parseValue
@@ -211,8 +217,11 @@ package server
 //@   requires [parser] esp != nil
 //@   requires [decoder] decoder != nil
 //@   requires [store] esp.store != nil
+//@   requires [callers-hold-no-lock-at-or-above-the-namespace-lock] forall l int :: has($held, l) ==> lockLevel(l) < 5
+//@   requires [namespace-registry] esp.store.NamespaceManager != nil && !has($held, addrOf(esp.store.NamespaceManager.lock))
+//@   ensures [lock-released] $held == old($held)
 //@   requires [mappings] esp.localPropertyMappings != nil
-//@   modifies $held, $acq, $persisted, $storeAttempted, map[string]string, map[string]interface{}, Entity.*, []interface{}
+//@   modifies $held, $acq, $persisted, $storeAttempted, map[string]string, F.server.NamespacesState.*, map[string]interface{}, Entity.*, []interface{}
 //@   safe typeassert nilmap
 
 //@ unit (*EntityStreamParser).parseArray
@@ -220,8 +229,11 @@ package server
 //@   requires [parser] esp != nil
 //@   requires [decoder] decoder != nil
 //@   requires [store] esp.store != nil
+//@   requires [callers-hold-no-lock-at-or-above-the-namespace-lock] forall l int :: has($held, l) ==> lockLevel(l) < 5
+//@   requires [namespace-registry] esp.store.NamespaceManager != nil && !has($held, addrOf(esp.store.NamespaceManager.lock))
+//@   ensures [lock-released] $held == old($held)
 //@   requires [mappings] esp.localPropertyMappings != nil
-//@   modifies $held, $acq, $persisted, $storeAttempted, map[string]string, map[string]interface{}, Entity.*, []interface{}
+//@   modifies $held, $acq, $persisted, $storeAttempted, map[string]string, F.server.NamespacesState.*, map[string]interface{}, Entity.*, []interface{}
 //@   safe typeassert nilmap
 
 //@ unit (*EntityStreamParser).parseRefValue
@@ -229,7 +241,10 @@ package server
 //@   requires [parser] esp != nil
 //@   requires [decoder] decoder != nil
 //@   requires [store] esp.store != nil
-//@   modifies $held, $acq, $persisted, $storeAttempted, map[string]string, []string, []interface{}
+//@   requires [callers-hold-no-lock-at-or-above-the-namespace-lock] forall l int :: has($held, l) ==> lockLevel(l) < 5
+//@   requires [namespace-registry] esp.store.NamespaceManager != nil && !has($held, addrOf(esp.store.NamespaceManager.lock))
+//@   ensures [lock-released] $held == old($held)
+//@   modifies $held, $acq, $persisted, $storeAttempted, map[string]string, F.server.NamespacesState.*, []string, []interface{}
 //@   safe typeassert nilmap
 
 //@ unit (*EntityStreamParser).parseRefArray
@@ -237,7 +252,10 @@ package server
 //@   requires [parser] esp != nil
 //@   requires [decoder] decoder != nil
 //@   requires [store] esp.store != nil
-//@   modifies $held, $acq, $persisted, $storeAttempted, map[string]string, []string, []interface{}
+//@   requires [callers-hold-no-lock-at-or-above-the-namespace-lock] forall l int :: has($held, l) ==> lockLevel(l) < 5
+//@   requires [namespace-registry] esp.store.NamespaceManager != nil && !has($held, addrOf(esp.store.NamespaceManager.lock))
+//@   ensures [lock-released] $held == old($held)
+//@   modifies $held, $acq, $persisted, $storeAttempted, map[string]string, F.server.NamespacesState.*, []string, []interface{}
 //@   safe typeassert nilmap
 
 //@ unit (*EntityStreamParser).parseEntity
@@ -245,10 +263,13 @@ package server
 //@   requires [parser] esp != nil
 //@   requires [decoder] decoder != nil
 //@   requires [store] esp.store != nil
+//@   requires [callers-hold-no-lock-at-or-above-the-namespace-lock] forall l int :: has($held, l) ==> lockLevel(l) < 5
+//@   requires [namespace-registry] esp.store.NamespaceManager != nil && !has($held, addrOf(esp.store.NamespaceManager.lock))
+//@   ensures [lock-released] $held == old($held)
 //@   requires [mappings] esp.localPropertyMappings != nil
 //@   ensures [no-entity-on-error] ret1 != nil ==> ret0 == nil
 //@   ensures [entity-on-success] ret1 == nil ==> ret0 != nil
-//@   modifies $held, $acq, $persisted, $storeAttempted, map[string]string, map[string]interface{}, Entity.*, []interface{}
+//@   modifies $held, $acq, $persisted, $storeAttempted, map[string]string, F.server.NamespacesState.*, map[string]interface{}, Entity.*, []interface{}
 //@   safe typeassert nilmap
 
 //@ unit (*EntityStreamParser).readContextNamespaces
@@ -257,10 +278,15 @@ package server
 //@   modifies map[string]string
 //@   safe typeassert nilmap
 
+// the callback frame below relies on nobody replacing the store's namespace registry after construction
+//@ writers [C15] Store.NamespaceManager: NewStore, NewContextualStore
 //@ unit (*EntityStreamParser).ParseStream
 //@   prop C15
 //@   requires esp != nil && esp.localNamespaces != nil && esp.store != nil && esp.localPropertyMappings != nil
-//@   dyncall emitEntity preserves EntityStreamParser.*
+//@   requires [callers-hold-no-lock-at-or-above-the-namespace-lock] forall l int :: has($held, l) ==> lockLevel(l) < 5
+//@   requires [namespace-registry] esp.store.NamespaceManager != nil && !has($held, addrOf(esp.store.NamespaceManager.lock))
+//@   ensures [lock-released] $held == old($held)
+//@   dyncall emitEntity preserves EntityStreamParser.*, Store.NamespaceManager
 //@   safe typeassert nilmap
 //@   at call emitEntity#1 before
 //@     assert [only-complete-entities] $arg0 != nil
@@ -268,6 +294,9 @@ package server
 //@ unit (*EntityStreamParser).ParseTransaction
 //@   prop C15
 //@   requires esp != nil && esp.localNamespaces != nil && esp.store != nil && esp.localPropertyMappings != nil
+//@   requires [callers-hold-no-lock-at-or-above-the-namespace-lock] forall l int :: has($held, l) ==> lockLevel(l) < 5
+//@   requires [namespace-registry] esp.store.NamespaceManager != nil && !has($held, addrOf(esp.store.NamespaceManager.lock))
+//@   ensures [lock-released] $held == old($held)
 //@   ensures [no-transaction-on-error] ret1 != nil ==> ret0 == nil
 //@   safe typeassert nilmap
 
